@@ -602,6 +602,16 @@ func randTSch(r *rand.Rand) TSch {
 			sv := TSvc{Name: fmt.Sprintf("Svc%d_%d", fi, si)}
 			if s, ok := pick("V"); ok && r.Intn(2) == 0 {
 				sv.Extends = s.key
+				// a derived service may carry the very name of the base service of another file
+				if bn := s.key[strings.Index(s.key, ":")+1:]; r.Intn(3) == 0 && !strings.HasPrefix(s.key, f.Path+":") {
+					dup := false
+					for _, o := range f.Svcs {
+						dup = dup || o.Name == bn
+					}
+					if !dup {
+						sv.Name = bn
+					}
+				}
 			}
 			for k := 0; k < 1+r.Intn(3); k++ {
 				fnName := fmt.Sprintf("%s%d_%d", []string{"Get", "Put", "List"}[k], fi, si)
